@@ -35,19 +35,29 @@ def run(ctx):
         ctx.count_case(tuple(v), len(v) >= 3 and nonconst,
                        sample={'fn': 'determine_peaks_only_delta_series', 'values': list(v)} if ctx.evaluations % 4001 == 0 else None)
         snap = arr.copy()
+        pre = {}
+        _PRE.before(ctx, _PRE.pc_entries, arr, pre, share=_PRE_SHARE_SERIES)      # round 7: preceding public calls on the same content
         rd = call_impl(pc.determine_peaks_only_delta_series, arr)
+        _PRE.before(ctx, _PRE.pc_entries, arr, pre, share=_PRE_SHARE_SERIES)
         rp = call_impl(pc.determine_pseudo_cyclic_peak_only_series, arr)
-        ctx.oracle('input array unchanged', np.array_equal(arr, snap), inputs={'values': list(v)})
+        ctx.oracle('input array unchanged', np.array_equal(arr, snap), inputs={'values': list(v), **pre})
         ctx.corr('determine_peaks_only_delta_series', f"delta_series|{w_rats(v)}", rd,
                  lambda outs, val: cmp_exact(list(val), p_rats(outs[0])), inputs={'values': list(v)})
         ctx.corr('determine_pseudo_cyclic_peak_only_series', f"pseudo_cyclic|{w_rats(v)}", rp,
                  lambda outs, val: cmp_exact(list(val), p_rats(outs[0])), inputs={'values': list(v)})
         if not nonconst or rd[0] != 'ok' or rp[0] != 'ok':
             return
+        _PRE.before(ctx, _PRE.pc_entries, arr, pre, share=_PRE_SHARE_SERIES)
         P = [int(p) for p in pc.get_peak_array_indices(arr)]
         d = [fr(x) for x in rd[1]]
         p = [fr(x) for x in rp[1]]
-        inputs = {'values': list(v)}
+        inputs = {'values': list(v), **pre}
+        # the reported peaks are the yardstick of the clauses below: they must be the turning points of THIS series (C11), whatever was
+        # asked of the peak functions before; the clauses are then evaluated on the turning points
+        Pspec = [int(q) for q in _np_peaks(arr)]
+        ctx.oracle('C13.a (yardstick, C11) get_peak_array_indices(values) == {0, every turning point, first sample of the final constant run}',
+                   P == Pspec, inputs, detail={'reported': P, 'turning points': Pspec})
+        P = Pspec
         ctx.oracle('C13.a delta series has the record length and is zero away from peaks',
                    len(d) == len(v) and all(d[i] == 0 for i in range(len(v)) if i not in set(P)), inputs, detail={'delta': rd[1], 'peaks': P})
         ctx.oracle('C13.a |delta| at the k-th peak == |change between consecutive peak values|',
@@ -136,7 +146,11 @@ def power_law(ctx):
         ctx.count_case(('pl', v.tobytes(), b, cut, a_ref, n_cyc), True,
                        sample={'fn': 'calc_n_cyc_array_w_power_law', 'n': n, 'b': b, 'cut_off': cut, 'a_ref': a_ref} if i < 2 else None)
         inputs = {'values': v, 'b': b, 'cut_off': cut, 'a_ref': a_ref, 'n_cyc': n_cyc}
+        # round 7: before a share of the measures, the public functions they are built on (and the measures themselves with other parameter
+        # values) are called on the same content with non-default options, positionally / by keyword; results ignored (see _precalls.py)
+        _PRE.before(ctx, _pre_entries, v, inputs)
         rn = call_impl(im.calc_n_cyc_array_w_power_law, v, a_ref, b, cut_off=cut)
+        _PRE.before(ctx, _pre_entries, v, inputs)
         ra = call_impl(im.calc_cyc_amp_array_w_power_law, v, n_cyc, b)
         ctx.corr('calc_n_cyc_array_w_power_law', f"n_cyc_power|{w_float(a_ref)}|{w_float(b)}|{w_float(cut)}|{w_floats(v)}|{w_rats(v)}", rn,
                  lambda outs, val: _cmpf(ctx, 'calc_n_cyc_array_w_power_law', np.asarray(val).reshape(-1), p_floats(outs[0])), inputs=inputs)
@@ -153,6 +167,7 @@ def power_law(ctx):
             # mutually inverse: amplitude for N = cycles(a_ref)[-1] is a_ref.  The cycle series is a 'previous' step function, so its
             # value at the last sample counts every switched peak only if the last switched peak is not the last sample: use the
             # defining sums instead of the last sample when it is.
+            _PRE.before(ctx, _pre_entries, v, inputs)
             n0 = im.calc_n_cyc_array_w_power_law(v, a_ref, b, cut_off=0.0).reshape(-1)
             pk = np.abs(np.take(v, __import__('eqsig').fns.peaks_and_crossings.get_switched_peak_array_indices(v)))
             n_tot = float(np.sum(0.5 / (a_ref / pk[pk > 0]) ** (1 / b))) if np.any(pk > 0) else 0.0
@@ -161,6 +176,7 @@ def power_law(ctx):
             ctx.oracle('C13.d final equivalent-cycle count == sum over the switched peaks of 0.5*(|peak|/a_ref)^(1/b)',
                        abs(float(n0[-1]) - n_tot) <= 1e-9 * max(n_tot, 1e-300), inputs, detail={'series_last': float(n0[-1]), 'sum': n_tot})
             if n0[-1] > 0:
+                _PRE.before(ctx, _pre_entries, v, inputs)
                 amp = im.calc_cyc_amp_array_w_power_law(v, float(n0[-1]), b)[-1]
                 ctx.oracle('C13.d mutual inverse: amplitude(N = cycles(a_ref)) == a_ref', abs(amp - a_ref) <= 1e-8 * a_ref, inputs,
                            detail={'amp': float(amp), 'a_ref': a_ref, 'n_series_last': float(n0[-1])})
@@ -175,7 +191,9 @@ def power_law(ctx):
         repl = 0.0 if cut == 0 else npk * 0.5 * max(1.0, alpha ** (-1 / b)) * (1e-14 / a_ref) ** (1 / b)
         ctx.oracle('C13.d cycles invariant when record and reference amplitude scale together',
                    bool(np.allclose(ns2, ns, rtol=1e-8, atol=2 * repl + 1e-9 * float(ns.max()) + 1e-300)), inputs, detail={'alpha': alpha})
+        _PRE.before(ctx, _pre_entries, v, inputs)
         comb = im.calc_cyc_amp_combined_arrays_w_power_law(v, v, n_cyc, b)
+        _PRE.before(ctx, _pre_entries, v, inputs)
         gm = im.calc_cyc_amp_gm_arrays_w_power_law(v, v, n_cyc, b)
         ctx.oracle('C13.d two identical components: combined == 2^b * single', bool(np.allclose(comb, 2 ** b * am, rtol=1e-9, atol=1e-300)), inputs)
         ctx.oracle('C13.d two identical components: geometric mean == single', bool(np.allclose(gm, am, rtol=1e-9, atol=1e-300)), inputs)
@@ -202,6 +220,14 @@ def power_law(ctx):
             bb = np.array([b, min(1.0, b * 1.5)])
             ra2 = im.calc_cyc_amp_array_w_power_law(v, n_cyc, bb)
             ctx.oracle('C13.d array b: column 0 equals the scalar-b series', bool(np.allclose(ra2[:, 0], am, rtol=1e-12)) and ra2.shape == (n, 2), inputs)
+
+
+import _precalls as _PRE  # noqa: E402
+_PRE_SHARE_SERIES = 0.04      # share of the (mostly exhaustive, ~20 000) peak-only-series cases with preceding calls, per call site
+
+
+def _pre_entries(content):
+    return _PRE.pc_entries(content) + _PRE.im_power_entries(content, weights={'calc_n_cyc_array_w_power_law': 2, 'calc_cyc_amp_array_w_power_law': 1})
 
 
 def _cmpf(ctx, fn, impl, model):
@@ -596,4 +622,85 @@ _run_main_sh = run
 def run(ctx):
     _run_main_sh(ctx)
     extras_shift(ctx)
+    ctx.flush()
+
+
+# ---- round-7 lesson (hx_r7c): consecutive evaluations of ONE record for a range of parameters -------------------------------------------
+
+def extras_sweeps(ctx):
+    """the power-law measures are usually evaluated for a range of cut-offs, reference amplitudes, exponents and cycle numbers of one record,
+    one call after the other with nothing in between (decreasing, increasing, repeated values): every result of the sweep must be, bit for
+    bit, what the same call returns on its own (after a call on another record), and the final cycle count must be the defining sum over
+    the switched peaks (peaks below cut_off * max|record| count with the replacement amplitude 1e-14).  The probes are switched off inside
+    a sweep so that the calls really are consecutive."""
+    from eqsig import im
+    from core import no_probe
+    rng = ctx.rng
+    ladders = {'cut_off': [0.6, 0.3, 0.1, 0.05, 0.01, 0.0], 'b': [1.0, 0.8, 0.5, 0.34, 0.25, 0.1], 'a_ref': [2.0, 1.0, 0.65, 0.3, 0.1], 'n_cyc': [15, 5, 2.5, 1]}
+    for it in range(10 if ctx.tier == 'quick' else 100):
+        n = gen.log_int(rng, 8, 200)
+        kind = rng.choice(['noise', 'dyadic', 'sine+ripple'])
+        if kind == 'noise':
+            v = gen.noise_record(rng, n) * rng.choice([1.0, 1e-3, 250.0])
+        elif kind == 'dyadic':
+            v = gen.dyadic_record(rng, n)
+        else:       # large half cycles with a small ripple crossing zero in between: many switched peaks far below any cut-off
+            v = np.array([(-1) ** i * (rng.choice([1.0, 2.0, 3.0]) if i % 3 else rng.choice([0.004, 0.02, 0.07, 0.2])) for i in range(n)])
+        if len(set(v.tolist())) < 3 or float(np.max(np.abs(v))) == 0:
+            continue
+        peak = float(np.max(np.abs(v)))
+        what = rng.choice(['cut_off', 'cut_off', 'b', 'a_ref', 'n_cyc'])
+        lad = list(ladders[what])
+        order = rng.choice(['decreasing', 'increasing', 'down-up', 'up-down', 'shuffled'])
+        seq = (lad if order == 'decreasing' else lad[::-1] if order == 'increasing' else lad + lad[::-1][1:] if order == 'down-up' else lad[::-1] + lad[1:]
+               if order == 'up-down' else [rng.choice(lad) for _ in range(8)])
+        fixed = {'cut_off': rng.choice([0.0, 0.01, 0.05, 0.1]), 'b': rng.choice([0.25, 0.34, 0.5, 1.0]), 'a_ref': rng.choice([0.3, 0.65, 1.0]), 'n_cyc': rng.choice([1, 5, 15])}
+        ctx.hist('sweep/%s/%s/%s' % (what, order, kind))
+        ctx.count_case(('sweep', v.tobytes(), what, order), True)
+
+        def call(par):
+            if what == 'n_cyc':
+                return im.calc_cyc_amp_array_w_power_law(v, par['n_cyc'], par['b'])
+            return im.calc_n_cyc_array_w_power_law(v, par['a_ref'] * peak, par['b'], cut_off=par['cut_off'])
+        pars = [{**fixed, what: x} for x in seq]
+        with no_probe():
+            got = [call_impl(call, p) for p in pars]               # the sweep: consecutive calls on the same record
+            alone = {}
+            for x in sorted(set(seq)):
+                call_impl(lambda: im.calc_n_cyc_array_w_power_law(v[:-1] * 1.5, peak, 0.5, cut_off=0.0))      # another record in between
+                call_impl(lambda: im.calc_cyc_amp_array_w_power_law(v[:-1] * 1.5, 3, 0.5))
+                alone[x] = call_impl(call, {**fixed, what: x})
+            S = np.asarray(__import__('eqsig').fns.peaks_and_crossings.get_switched_peak_array_indices(v))
+        pk = np.abs(v[S])
+        for i, (x, par, g) in enumerate(zip(seq, pars, got)):
+            a = alone[x]
+            inputs = {'values': v, 'swept parameter': what, 'sweep (consecutive calls on this record, in this order)': seq, 'position in the sweep': i,
+                      'parameters of this call': ({'n_cyc': par['n_cyc'], 'b': par['b']} if what == 'n_cyc' else
+                                                  {'a_ref': par['a_ref'] * peak, 'b': par['b'], 'cut_off': par['cut_off']})}
+            ok = g[0] == 'ok' and a[0] == 'ok' and np.shape(g[1]) == np.shape(a[1]) and bool(np.array_equal(np.asarray(g[1]), np.asarray(a[1]), equal_nan=True))
+            ctx.oracle('C13.d a power-law measure evaluated in a sweep of %s over one record == the same call on its own (bit for bit)' % what, ok, inputs,
+                       detail=None if ok else {'in the sweep (tail)': g[1] if g[0] != 'ok' else np.asarray(g[1]).reshape(-1)[-3:],
+                                               'on its own (tail)': a[1] if a[0] != 'ok' else np.asarray(a[1]).reshape(-1)[-3:]})
+            if g[0] != 'ok':
+                continue
+            series = np.asarray(g[1]).reshape(-1)
+            if what == 'n_cyc':
+                want = float(np.sum(pk ** (1 / par['b']) / 2 / par['n_cyc'])) ** par['b']
+                ctx.oracle('C13.d (sweep) final equivalent amplitude == (sum over the switched peaks of |peak|^(1/b) / (2 n_cyc))^b',
+                           len(series) == len(v) and abs(float(series[-1]) - want) <= 1e-9 * max(want, 1e-300), inputs, detail={'got': float(series[-1]), 'want': want})
+            else:
+                a_ref = par['a_ref'] * peak
+                pk_c = np.where(pk < par['cut_off'] * peak, 1.0e-14, pk)
+                with np.errstate(all='ignore'):
+                    want = float(np.sum(0.5 * (pk_c[pk_c > 0] / a_ref) ** (1 / par['b'])))
+                ctx.oracle('C13.d (sweep) final equivalent-cycle count == sum over the switched peaks of 0.5*(|peak|/a_ref)^(1/b) (peaks below cut_off*max count as 1e-14)',
+                           len(series) == len(v) and abs(float(series[-1]) - want) <= 1e-9 * max(want, 1e-300), inputs, detail={'got': float(series[-1]), 'want': want})
+
+
+_run_main_sw = run
+
+
+def run(ctx):
+    _run_main_sw(ctx)
+    extras_sweeps(ctx)
     ctx.flush()
